@@ -168,3 +168,29 @@ fn ls_tls_teardown_sender_gone() {
     assert!(gc::nlog() == 0);
     kani::cover!(true);
 }
+
+// C10 / C13: a local-parent scope affects only the thread it was opened on: on another (virtual)
+// thread there is no local parent and local operations are inert; back on the first thread the
+// scope is still in effect.  (Per-thread isolation itself is the thread_local model's contract;
+// the harness decides that fastrace keeps this state nowhere else.)
+#[kani::proof]
+#[kani::unwind(3)]
+fn ls_other_thread_unaffected() {
+    env();
+    let st = stk::install_stack(0, 4);
+    let item = stk::any_item(true);
+    let h = st.borrow_mut().register_span_line(Some(vec![item])).unwrap();
+    tls::set_current(1);
+    gc::install_observed_sender(1);
+    assert!(SpanContext::current_local_parent().is_none(), "a local parent leaked to another thread");
+    let l = LocalSpan::enter_with_local_parent(N_A);
+    LocalSpan::add_event(Event::new(N_EV));
+    drop(l);
+    assert!(stk::stack_depth_of(1) == 0 && stk::stack_depth_of(0) == 1);
+    tls::set_current(0);
+    let c = SpanContext::current_local_parent().unwrap();
+    assert!(c.span_id == item.parent_id && c.trace_id == item.trace_id, "the scope of the first thread was disturbed");
+    assert!(gc::nlog() == 0);
+    std::mem::forget((st, h));
+    kani::cover!(true);
+}
